@@ -260,6 +260,20 @@ pub fn event(k: u8, a: u64, b: u64, r: u64) -> u64 {
         if !c.active {
             return r;
         }
+        // a caller whose baton was handed on while it was blocked on a lock parks
+        // here, at its first seam event after waking up
+        if let Some(s) = c.sched.as_ref() {
+            if !s.holds(c.tid) {
+                let s = s.clone();
+                let tid = c.tid;
+                drop(c);
+                s.reacquire(tid);
+                c = match cell.try_borrow_mut() {
+                    Ok(c) => c,
+                    Err(_) => return r,
+                };
+            }
+        }
         let idx = c.op_ev;
         c.op_ev += 1;
         let tidx = c.thr_ev;
